@@ -172,7 +172,12 @@ func (l *listener) handle(conn net.Conn) {
 
 	buf := bufPool.Get().([]byte)
 	buf = buf[:0]
-	defer bufPool.Put(buf)
+	defer func() {
+		// a hijacked connection keeps reading from its buffer: it must not be reused
+		if !errors.Is(err, errHijacked) {
+			bufPool.Put(buf)
+		}
+	}()
 
 	cx := WrapConnection(conn, buf, l.logger)
 	cx.Context = context.WithValue(cx.Context, listenerCtxKey, l)
